@@ -826,11 +826,57 @@ def rule_whole_body_listed(prog, fixture=False):
     return r
 
 
+# ---------------------------------------------------------------- R-C03-10
+def rule_indent_is_a_width(prog, fixture=False):
+    r = RuleResult("R-C03-10", "the indentation counter reaches printf as a field *width* (`%*s` of an empty string, or "
+                   "a loop): used as a precision of a finite literal (`%.*s`) it would be capped at the literal's length "
+                   "and deep nesting would stop indenting", floor=0 if fixture else 1)
+    for fn in prog.fn("decode_line", required=not fixture):
+        ind = [p_ for p_ in fn.params if p_.get("n") == "indent"]
+        if not ind:
+            r.undecided.append("decode_line has no `indent` parameter")
+            continue
+        idd = ind[0]["d"]
+        for n in fn.walk():
+            if n.get("k") != "CallExpr" or notpl(n.get("q") or "") not in ("printf", "fprintf"):
+                continue
+            a = call_args(n)
+            fi = 1 if notpl(n.get("q")) == "fprintf" else 0
+            if len(a) <= fi + 1 or not any(y.get("k") == "DeclRefExpr" and y.get("d") == idd for x in a[fi + 1:] for y in walk(x)):
+                continue
+            fmt = strip_all(a[fi])
+            text = fmt.get("s") if fmt is not None and fmt.get("k") == "StringLiteral" else None
+            key = "%s::%s::indent-printf#%d" % (fn.relfile(), fn.qn, len(r.instances) + 1)
+            if text is None:
+                r.undecided.append("%s: the format of the indentation printf is not a literal" % fn.loc(n))
+                continue
+            # which conversion consumes the indent argument?
+            convs = list(re.finditer(r"%([-0 +#]*)(\*|\d+)?(?:\.(\*|\d+))?([lhz]*)([a-zA-Z%])", text))
+            argi = fi + 1
+            role = None
+            for c in convs:
+                if c.group(5) == "%":
+                    continue
+                for which, grp in (("width", c.group(2)), ("precision", c.group(3))):
+                    if grp == "*":
+                        if argi < len(a) and any(y.get("k") == "DeclRefExpr" and y.get("d") == idd for y in walk(a[argi])):
+                            role = which
+                        argi += 1
+                if argi < len(a) and any(y.get("k") == "DeclRefExpr" and y.get("d") == idd for y in walk(a[argi])) and role is None:
+                    role = "value"
+                argi += 1
+            ok = role == "width"
+            r.add(key, fn.loc(n), ok, "field width" if ok else
+                  "the indentation is used as the %s of `%s`: the blanks printed are capped (by the length of the string "
+                  "argument), so indentation stops growing for deeply nested loops" % (role or "?", text))
+    return r
+
+
 def run(ctx):
     prog = ctx.prog("basic", "N")
     root = ctx.root or facts.REPO
     return [rule_line_number(prog, root), rule_input_independence(prog), rule_indentation(prog), rule_count_extent(prog),
-            rule_listo_applies_to_every_line(prog), rule_whole_body_listed(prog), _shared_cursor_rule(prog), _shared_success_rule(prog)]
+            rule_listo_applies_to_every_line(prog), rule_whole_body_listed(prog), _shared_cursor_rule(prog), _shared_success_rule(prog), rule_indent_is_a_width(prog)]
 
 
 def _shared_success_rule(prog):
